@@ -39,7 +39,7 @@ ASSUMPTIONS = [
 LEVEL_TEXT = ("generated op-sequence search with a reference model of which replies may reach the client, plus metamorphic "
               "comparison of segmentations of the same TCP byte streams")
 LEVEL_NOTE = "trusts lib/driver.py, lib/ref_dns.py and Hypothesis' search"
-QUICK_N, THOROUGH_N = 80_000, 4_000_000
+QUICK_N, THOROUGH_N = 45_000, 4_000_000
 BUDGET_S = (240, 5400)
 
 IDS = [1, 2, 0xC00C, 65535]
